@@ -15,7 +15,7 @@ import (
 var _ = packet.NewPuback
 
 type step struct {
-	kind string // in | inerr | deq | ack | ackall | close | settle | reconnect | drain | react | idle
+	kind string // in | inerr | deq | ack | ackall | close | settle | reconnect | drain | react | idle | stall | unstall | pause | deqhold | deqrelease
 	name string // react: the new mode
 	wait time.Duration // idle: how long the peer stays silent at most
 	pkt  packet.Generic
@@ -23,6 +23,7 @@ type step struct {
 	k    int
 	// reconnect options
 	resumed, fresh bool
+	w              int // reconnect: the window (InflightMessages) the backend configures from now on (0 = as before)
 }
 
 type scenario struct {
@@ -48,6 +49,10 @@ type scenario struct {
 	expectDrained bool
 	defaults      bool          // the backend configures no limits: the documented defaults apply
 	maxKA         time.Duration // MaximumKeepAlive set by the backend during Setup
+	// expectServed: the peer of this script is well behaved and never keeps the broker waiting for anything for longer than a
+	// fraction of the token timeout: at the end of the script the connection is still up and every request the peer sent on
+	// it (SUBSCRIBE, UNSUBSCRIBE, PUBLISH QoS>0, PUBREL, PINGREQ) has got its response (clause c20_served, judged by the harness)
+	expectServed bool
 	wantTimeout   time.Duration // the read timeout the broker must have armed after an accepted CONNECT (0 = not checked)
 }
 
@@ -61,6 +66,14 @@ func (sc *scenario) text() string {
 			parts = append(parts, fmt.Sprintf("deq:q%d", st.msg.QOS))
 		case "ack":
 			parts = append(parts, fmt.Sprintf("ack:%d", st.k))
+		case "pause":
+			parts = append(parts, fmt.Sprintf("pause:%v", st.wait))
+		case "reconnect":
+			if st.w > 0 {
+				parts = append(parts, fmt.Sprintf("reconnect:w%d", st.w))
+			} else {
+				parts = append(parts, st.kind)
+			}
 		default:
 			parts = append(parts, st.kind)
 		}
@@ -74,6 +87,9 @@ func (sc *scenario) text() string {
 	}
 	if sc.defaults {
 		qf += "(defaults)"
+	}
+	if sc.expectServed {
+		qf += fmt.Sprintf("(served,pp=%d,ps=%d,tt=%v)", sc.pp, sc.ps, sc.tokenTO)
 	}
 	if sc.maxKA > 0 || sc.wantTimeout > 0 {
 		qf += fmt.Sprintf("(maxka=%v,want=%v)", sc.maxKA, sc.wantTimeout)
@@ -133,6 +149,7 @@ func runScenario(orig *scenario) *result {
 	}
 	res := &result{}
 	connNo := 0
+	var fed []packet.Generic // what the peer has sent on the current connection
 	var conn *RecConn
 	var client *broker.Client
 	open := func() {
@@ -273,14 +290,25 @@ func runScenario(orig *scenario) *result {
 	open()
 	idle := func() bool { return conn.consumed() && (len(b.queue) == 0 || conn.consumedClosed()) }
 	for _, st := range sc.steps {
-		if sc.react != "" || sc.expectDrained {
+		if sc.react != "" || sc.expectDrained || sc.expectServed {
 			// a step counts as activity: the waits below measure silence from here, not from the last logged event (after a
 			// pause in which the dequeuer waited for a slot the next packet would otherwise not be waited for at all)
 			l.touch()
 		}
 		switch st.kind {
 		case "in":
+			fed = append(fed, st.pkt)
 			conn.feed(clonePkt(st.pkt)) // scenarios share their step lists: the broker gets objects of its own
+		case "stall":
+			conn.stall(true)
+		case "unstall":
+			conn.stall(false)
+		case "pause":
+			time.Sleep(st.wait) // the peer does nothing for a while (a pause, not a verdict)
+		case "deqhold":
+			b.holdNextDequeue()
+		case "deqrelease":
+			b.releaseDequeue()
 		case "inerr":
 			conn.feedErr()
 		case "deq":
@@ -302,6 +330,11 @@ func runScenario(orig *scenario) *result {
 			finish()
 			b.resumed = st.resumed
 			b.fresh = st.fresh
+			if st.w > 0 {
+				b.w = st.w
+				sc.w = st.w
+			}
+			fed = nil
 			acked, recd = map[int]bool{}, map[int]bool{}
 			open()
 		case "react":
@@ -369,6 +402,20 @@ func runScenario(orig *scenario) *result {
 			n := len(b.queue)
 			res.direct = append(res.direct, fmt.Sprintf("c16_drained %s every queued message has been delivered to a subscriber that acknowledged everything it received (still queued: %d)", okFail(n == 0), n))
 		}
+	}
+	if sc.expectServed {
+		conn.stall(false)
+		l.touch()
+		l.settle(idle, settleQuiet, settleBlocked, settleMax)
+		alive := true
+		select {
+		case <-client.Closed():
+			alive = false
+		default:
+		}
+		missing := unansweredRequests(fed, conn.sentCopy())
+		res.direct = append(res.direct, fmt.Sprintf("c20_served %s a peer that pipelines its requests and reads the replies well within the token timeout (%v) stays connected (alive=%v, closed by the broker=%v) and gets every request answered (unanswered: %v)",
+			okFail(alive && !conn.consumedClosed() && len(missing) == 0), sc.tokenTO, alive, conn.consumedClosed(), missing))
 	}
 	if sc.wantTimeout > 0 {
 		conn.mu.Lock()
@@ -444,6 +491,58 @@ func cloneMsg(m *packet.Message) *packet.Message {
 		c.Payload = append([]byte{}, m.Payload...)
 	}
 	return &c
+}
+
+// unansweredRequests: the requests among `fed` (what the peer sent after its CONNECT) without their response among `sent`
+// (SUBSCRIBE -> SUBACK with the id and one code per filter, UNSUBSCRIBE -> UNSUBACK, PUBLISH QoS 1 -> PUBACK, QoS 2 -> PUBREC,
+// PUBREL -> PUBCOMP, PINGREQ -> PINGRESP; responses are consumed one per request)
+func unansweredRequests(fed, sent []packet.Generic) []string {
+	have := map[string]int{}
+	for _, p := range sent {
+		switch v := p.(type) {
+		case *packet.Suback:
+			have[fmt.Sprintf("SUBACK %d/%d", v.ID, len(v.ReturnCodes))]++
+		case *packet.Unsuback:
+			have[fmt.Sprintf("UNSUBACK %d", v.ID)]++
+		case *packet.Puback:
+			have[fmt.Sprintf("PUBACK %d", v.ID)]++
+		case *packet.Pubrec:
+			have[fmt.Sprintf("PUBREC %d", v.ID)]++
+		case *packet.Pubcomp:
+			have[fmt.Sprintf("PUBCOMP %d", v.ID)]++
+		case *packet.Pingresp:
+			have["PINGRESP"]++
+		}
+	}
+	var missing []string
+	for _, p := range fed {
+		want := ""
+		switch v := p.(type) {
+		case *packet.Subscribe:
+			want = fmt.Sprintf("SUBACK %d/%d", v.ID, len(v.Subscriptions))
+		case *packet.Unsubscribe:
+			want = fmt.Sprintf("UNSUBACK %d", v.ID)
+		case *packet.Publish:
+			if v.Message.QOS == 1 {
+				want = fmt.Sprintf("PUBACK %d", v.ID)
+			} else if v.Message.QOS == 2 {
+				want = fmt.Sprintf("PUBREC %d", v.ID)
+			}
+		case *packet.Pubrel:
+			want = fmt.Sprintf("PUBCOMP %d", v.ID)
+		case *packet.Pingreq:
+			want = "PINGRESP"
+		}
+		if want == "" {
+			continue
+		}
+		if have[want] > 0 {
+			have[want]--
+		} else {
+			missing = append(missing, want)
+		}
+	}
+	return missing
 }
 
 func okFail(b bool) string {
